@@ -281,8 +281,8 @@ func ruleNameEscape(c *core.Ctx, rule, readerPkg string) {
 
 // stringEscapes extracts the writer-side escape table of formatString.
 type escTable struct {
-	Raw     core.ByteSet          // bytes that may be emitted raw
-	Esc     core.ByteSet          // bytes that may be emitted as backslash + letter
+	Raw     core.ByteSet         // bytes that may be emitted raw
+	Esc     core.ByteSet         // bytes that may be emitted as backslash + letter
 	Letters map[int]map[int]bool // byte -> set of letters following the backslash
 }
 
@@ -367,11 +367,11 @@ func stringWriterTable(c *core.Ctx, o *core.Ob) escTable {
 // stringReaderTable extracts the reader side: the set of bytes read
 // verbatim, and the escape-letter map.
 type readTable struct {
-	Ident    core.ByteSet  // raw bytes appended unchanged
-	EscConst map[int]int   // letter -> byte appended
-	EscIdent core.ByteSet  // letters appended unchanged
-	EscNone  core.ByteSet  // letters producing nothing (line continuation)
-	Octal    core.ByteSet  // letters starting an octal escape
+	Ident    core.ByteSet // raw bytes appended unchanged
+	EscConst map[int]int  // letter -> byte appended
+	EscIdent core.ByteSet // letters appended unchanged
+	EscNone  core.ByteSet // letters producing nothing (line continuation)
+	Octal    core.ByteSet // letters starting an octal escape
 	CRtoLF   bool
 }
 
